@@ -17,6 +17,8 @@ impl BlobStore {
     /// Writes a blob to the pager and returns the first page ID.
     /// Direct pager access (for bulk loading).
     pub fn write_direct(pager: &mut Pager, data: &[u8]) -> Result<u64> {
+        #[cfg(nervusdb_verif)]
+        let _owner = nervusdb_api::verif::owner_scope("blob");
         // Write from last to first to build the chain
         if data.is_empty() {
             // Handle empty blob
